@@ -81,6 +81,7 @@ theorem tuplify_untuplify {xs : List PyVal} (h : AllAtoms xs) : tuplify (untupli
   match xs, h with
   | [], _ => rfl
   | [.atom _], _ => rfl
+  | [.tok _ _], _ => rfl
   | [.tup ys], h => exact absurd (h (.tup ys) (by simp)) (by simp [PyVal.isAtom])
   | _ :: _ :: _, _ => rfl
 
@@ -1342,58 +1343,216 @@ theorem discard_natural {f : CDiagram} (hf : f.WF) (hbf : f.BoxesOK) {xs xs' : L
 
 /-! ### The pool: primitives that respect their declared arity (non-vacuity of `Respects`) -/
 
+/-- A non-tuple value alone on a wire is that wire. -/
+theorem tuplify_atom : ∀ {x : PyVal}, x.isAtom = true → tuplify x = [x]
+  | .atom _, _ => rfl
+  | .tok _ _, _ => rfl
+  | .tup _, h => by simp [PyVal.isAtom] at h
+
+theorem ofNum_isAtom (f : Bool) (a : Int) : (PyVal.ofNum f a).isAtom = true := by
+  cases f <;> rfl
+
+theorem addNum_isAtom {p q : Option (Bool × Int)} {v : PyVal} (h : addNum p q = .ok v) :
+    v.isAtom = true := by
+  match p, q, h with
+  | some (f, a), some (g, b), h =>
+    have : (Except.ok (PyVal.ofNum (f || g) (a + b)) : Except Err PyVal) = .ok v := h
+    cases this
+    exact ofNum_isAtom _ _
+
+/-- `x + y` of two non-tuples, when it returns, is a non-tuple (numbers of every flavour). -/
+theorem add_isAtom : ∀ {x y v : PyVal}, x.isAtom = true → y.isAtom = true →
+    x.add y = .ok v → v.isAtom = true
+  | .atom _, .atom _, _, _, _, h => by unfold PyVal.add at h; exact addNum_isAtom h
+  | .atom _, .tok _ _, _, _, _, h => by unfold PyVal.add at h; exact addNum_isAtom h
+  | .tok _ _, .atom _, _, _, _, h => by unfold PyVal.add at h; exact addNum_isAtom h
+  | .tok _ _, .tok _ _, _, _, _, h => by unfold PyVal.add at h; exact addNum_isAtom h
+  | .tup _, _, _, hx, _, _ => by simp [PyVal.isAtom] at hx
+  | .atom _, .tup _, _, _, hy, _ => by simp [PyVal.isAtom] at hy
+  | .tok _ _, .tup _, _, _, hy, _ => by simp [PyVal.isAtom] at hy
+
+/-- `k * x` of a non-tuple, when it returns, is a non-tuple. -/
+theorem rmul_isAtom (k : Int) : ∀ {x v : PyVal}, x.isAtom = true → x.rmul k = .ok v →
+    v.isAtom = true
+  | .tup _, _, hx, _ => by simp [PyVal.isAtom] at hx
+  | .atom a, v, _, h => by
+    have : (Except.ok (PyVal.ofNum false (k * a)) : Except Err PyVal) = .ok v := h
+    cases this; rfl
+  | .tok t a, v, _, h => by
+    have h' : (match (PyVal.tok t a).num? with
+      | some (f, a) => Except.ok (PyVal.ofNum f (k * a))
+      | none => Except.error Err.type) = Except.ok v := h
+    cases hn : (PyVal.tok t a).num? with
+    | none => rw [hn] at h'; cases h'
+    | some p =>
+      obtain ⟨f, b⟩ := p
+      rw [hn] at h'
+      have : (Except.ok (PyVal.ofNum f (k * b)) : Except Err PyVal) = .ok v := h'
+      cases this; exact ofNum_isAtom _ _
+
 theorem ADD_respects : ADD.Respects := by
   intro xs v hl ha hv
   match xs, hl with
-  | [.atom a, .atom b], _ =>
-    have : v = .atom (a + b) := by
-      have : (Except.ok (PyVal.atom (a + b)) : Except Err PyVal) = .ok v := hv
-      cases this; rfl
-    subst this
-    exact ⟨rfl, fun z hz => by simp [tuplify] at hz; simp [hz, PyVal.isAtom]⟩
-  | [.tup t, _], _ => exact absurd (ha (.tup t) (by simp)) (by simp [PyVal.isAtom])
-  | [.atom _, .tup t], _ => exact absurd (ha (.tup t) (by simp)) (by simp [PyVal.isAtom])
+  | [x, y], _ =>
+    have hv' : x.add y = .ok v := hv
+    have hat := add_isAtom (ha x (by simp)) (ha y (by simp)) hv'
+    rw [tuplify_atom hat]
+    exact ⟨rfl, fun z hz => by simp at hz; rw [hz]; exact hat⟩
 
-theorem affRow_atoms (j : Nat) : ∀ (xs : List PyVal) (i : Nat) (a : Int), AllAtoms xs →
-    ∃ r, affRow j i (.atom a) xs = .ok (.atom r)
-  | [], _, a, _ => ⟨a, rfl⟩
-  | .atom b :: xs, i, a, h =>
-    affRow_atoms j xs (i + 1) _ (fun z hz => h z (by simp [hz]))
-  | .tup t :: _, _, _, h => absurd (h (.tup t) (by simp)) (by simp [PyVal.isAtom])
+theorem affRow_atoms (j : Nat) : ∀ (xs : List PyVal) (i : Nat) (acc v : PyVal),
+    acc.isAtom = true → AllAtoms xs → affRow j i acc xs = .ok v → v.isAtom = true
+  | [], _, acc, v, hacc, _, h => by
+    have : (Except.ok acc : Except Err PyVal) = .ok v := h
+    cases this; exact hacc
+  | x :: xs, i, acc, v, hacc, hx, h => by
+    have h' : ((x.rmul ((i + j + 1 : Nat) : Int)).bind acc.add).bind
+        (fun a => affRow j (i + 1) a xs) = .ok v := h
+    cases h1 : x.rmul ((i + j + 1 : Nat) : Int) with
+    | error e => rw [h1] at h'; cases h'
+    | ok p =>
+      rw [h1] at h'
+      cases h2 : acc.add p with
+      | error e =>
+        have h'' : (acc.add p).bind (fun a => affRow j (i + 1) a xs) = .ok v := h'
+        rw [h2] at h''; cases h''
+      | ok a =>
+        have h'' : (acc.add p).bind (fun a => affRow j (i + 1) a xs) = .ok v := h'
+        rw [h2] at h''
+        exact affRow_atoms j xs (i + 1) a v
+          (add_isAtom hacc (rmul_isAtom _ (hx x (by simp)) h1) h2)
+          (fun z hz => hx z (by simp [hz])) h''
 
-theorem affOuts_atoms (s : Int) (xs : List PyVal) (h : AllAtoms xs) : ∀ js : List Nat,
-    ∃ vs, affOuts s xs js = .ok vs ∧ vs.length = js.length ∧ AllAtoms vs
-  | [] => ⟨[], rfl, rfl, allAtoms_nil⟩
-  | j :: js => by
-    obtain ⟨r, hr⟩ := affRow_atoms j xs 0 (s + (j : Int)) h
-    obtain ⟨vs, hvs, hl, hat⟩ := affOuts_atoms s xs h js
-    refine ⟨.atom r :: vs, ?_, by simp [hl], ?_⟩
-    · simp [affOuts, hr, hvs, Except.bind]
-    · intro z hz
-      rcases List.mem_cons.mp hz with rfl | hz
-      · rfl
-      · exact hat z hz
+theorem affOuts_atoms (s : Int) (xs : List PyVal) (h : AllAtoms xs) : ∀ (js : List Nat)
+    (vs : List PyVal), affOuts s xs js = .ok vs → vs.length = js.length ∧ AllAtoms vs
+  | [], vs, hv => by
+    have : (Except.ok [] : Except Err (List PyVal)) = .ok vs := hv
+    cases this; exact ⟨rfl, allAtoms_nil⟩
+  | j :: js, vs, hv => by
+    have hv' : (affRow j 0 (.atom (s + (j : Int))) xs).bind (fun v =>
+      (affOuts s xs js).bind (fun vs => .ok (v :: vs))) = .ok vs := hv
+    cases h1 : affRow j 0 (.atom (s + (j : Int))) xs with
+    | error e => rw [h1] at hv'; cases hv'
+    | ok r =>
+      rw [h1] at hv'
+      cases h2 : affOuts s xs js with
+      | error e =>
+        have h'' : (affOuts s xs js).bind (fun vs => Except.ok (r :: vs)) = .ok vs := hv'
+        rw [h2] at h''; cases h''
+      | ok ws =>
+        have h'' : (affOuts s xs js).bind (fun vs => Except.ok (r :: vs)) = .ok vs := hv'
+        rw [h2] at h''
+        have : (Except.ok (r :: ws) : Except Err (List PyVal)) = .ok vs := h''
+        cases this
+        obtain ⟨hl, hat⟩ := affOuts_atoms s xs h js ws h2
+        refine ⟨by simp [hl], ?_⟩
+        intro z hz
+        rcases List.mem_cons.mp hz with rfl | hz
+        · exact affRow_atoms j xs 0 _ _ rfl h h1
+        · exact hat z hz
 
 /-- Every `affine m n s bare` box declared `m → n` respects its arity, for all arities
-    including 0 and 1 and both conventions (bare value / 1-tuple) for a single output. -/
+    including 0 and 1 and both conventions (bare value / 1-tuple) for a single output, on
+    numbers of every flavour (on `None`, a dict, … it raises `TypeError`: nothing to respect). -/
 theorem affine_respects (m n : Nat) (s : Int) (bare : Bool) :
     ((Prim.affine m n s bare).box m n).Respects := by
   intro xs v hl ha hv
   have hl' : xs.length = m := hl
-  obtain ⟨vs, hvs, hlen, hat⟩ := affOuts_atoms s xs ha (List.range n)
   have hv' : Prim.sem (.affine m n s bare) xs = .ok v := hv
-  simp only [Prim.sem, arity, hl', ne_eq, not_true_eq_false, ↓reduceIte, hvs, Except.map] at hv'
-  cases hv'
-  rw [List.length_range] at hlen
-  show (tuplify (affPack n bare vs)).length = n ∧ _
-  unfold affPack
-  split
-  · rename_i hb
-    obtain ⟨_, rfl⟩ := hb
-    match vs, hlen, hat with
-    | [.atom r], _, _ => exact ⟨rfl, fun z hz => by simp [tuplify] at hz; simp [hz, PyVal.isAtom]⟩
-    | [.tup t], _, hat => exact absurd (hat (.tup t) (by simp)) (by simp [PyVal.isAtom])
-  · exact ⟨hlen, hat⟩
+  simp only [Prim.sem, arity, hl', ne_eq, not_true_eq_false, ↓reduceIte] at hv'
+  cases hvs : affOuts s xs (List.range n) with
+  | error e => rw [hvs] at hv'; cases hv'
+  | ok vs =>
+    rw [hvs] at hv'
+    obtain ⟨hlen, hat⟩ := affOuts_atoms s xs ha (List.range n) vs hvs
+    have : (Except.ok (affPack n bare vs) : Except Err PyVal) = .ok v := hv'
+    cases this
+    rw [List.length_range] at hlen
+    show (tuplify (affPack n bare vs)).length = n ∧ _
+    unfold affPack
+    split
+    · rename_i hb
+      obtain ⟨_, rfl⟩ := hb
+      match vs, hlen, hat with
+      | [r], _, hat =>
+        have hr : r.isAtom = true := hat r (by simp)
+        show (tuplify r).length = 1 ∧ AllAtoms (tuplify r)
+        rw [tuplify_atom hr]
+        exact ⟨rfl, hat⟩
+    · exact ⟨hlen, hat⟩
+
+/-- `tyc m i : m → 1` (the type of its i-th argument, as an int) respects its arity. -/
+theorem tyc_respects (m i : Nat) : ((Prim.tyc m i).box m 1).Respects := by
+  intro xs v hl ha hv
+  have hl' : xs.length = m := hl
+  have hv' : Prim.sem (.tyc m i) xs = .ok v := hv
+  simp only [Prim.sem, arity, hl', ne_eq, not_true_eq_false, ↓reduceIte] at hv'
+  split at hv'
+  · cases hv'
+    exact ⟨rfl, fun z hz => by simp [tuplify] at hz; simp [hz, PyVal.isAtom]⟩
+  · cases hv'
+
+/-- `const m v : m → 1` for a non-tuple `v` respects its arity (states when `m = 0`). -/
+theorem const_respects (m : Nat) (v : PyVal) (hv : v.isAtom = true) :
+    ((Prim.const m v).box m 1).Respects := by
+  intro xs w hl _ hw
+  have hl' : xs.length = m := hl
+  have hw' : Prim.sem (.const m v) xs = .ok w := hw
+  simp only [Prim.sem, arity, hl', ne_eq, not_true_eq_false, ↓reduceIte] at hw'
+  cases hw'
+  rw [tuplify_atom hv]
+  exact ⟨rfl, fun z hz => by simp at hz; rw [hz]; exact hv⟩
+
+/-- `proj m i : m → 1` hands back its i-th argument as it is (type included). -/
+theorem proj_respects (m i : Nat) : ((Prim.proj m i).box m 1).Respects := by
+  intro xs v hl ha hv
+  have hl' : xs.length = m := hl
+  have hv' : Prim.sem (.proj m i) xs = .ok v := hv
+  simp only [Prim.sem, arity, hl', ne_eq, not_true_eq_false, ↓reduceIte] at hv'
+  split at hv'
+  · rename_i w hw
+    cases hv'
+    have hat : v.isAtom = true := ha v (List.mem_of_getElem? hw)
+    rw [tuplify_atom hat]
+    exact ⟨rfl, fun z hz => by simp at hz; rw [hz]; exact hat⟩
+  · cases hv'
+
+theorem pickAll_atoms {xs : List PyVal} (ha : AllAtoms xs) : ∀ (is : List Nat) (vs : List PyVal),
+    pickAll xs is = .ok vs → vs.length = is.length ∧ AllAtoms vs
+  | [], vs, h => by
+    have : (Except.ok [] : Except Err (List PyVal)) = .ok vs := h
+    cases this; exact ⟨rfl, allAtoms_nil⟩
+  | i :: is, vs, h => by
+    unfold pickAll at h
+    split at h
+    · rename_i v hv
+      cases h2 : pickAll xs is with
+      | error e => rw [h2] at h; cases h
+      | ok ws =>
+        rw [h2] at h
+        have : (Except.ok (v :: ws) : Except Err (List PyVal)) = .ok vs := h
+        cases this
+        obtain ⟨hl, hat⟩ := pickAll_atoms ha is ws h2
+        refine ⟨by simp [hl], ?_⟩
+        intro z hz
+        rcases List.mem_cons.mp hz with rfl | hz
+        · exact ha _ (List.mem_of_getElem? hv)
+        · exact hat z hz
+    · cases h
+
+/-- `pick m is : m → |is|` (any rearrangement, duplication, deletion of its arguments, handed back
+    as they are) respects its arity. -/
+theorem pick_respects (m : Nat) (is : List Nat) : ((Prim.pick m is).box m is.length).Respects := by
+  intro xs v hl ha hv
+  have hl' : xs.length = m := hl
+  have hv' : Prim.sem (.pick m is) xs = .ok v := hv
+  simp only [Prim.sem, arity, hl', ne_eq, not_true_eq_false, ↓reduceIte] at hv'
+  cases h2 : pickAll xs is with
+  | error e => rw [h2] at hv'; cases hv'
+  | ok ws =>
+    rw [h2] at hv'
+    have : (Except.ok (PyVal.tup ws) : Except Err PyVal) = .ok v := hv'
+    cases this
+    exact pickAll_atoms ha is ws h2
 
 /-- A hierarchical box whose function is the identity sub-diagram `Id(m)`. -/
 theorem ident_respects (m : Nat) : ((Prim.ident m).box m m).Respects := by
